@@ -131,7 +131,7 @@ func runReconciler(in qinput) *rrun {
 	v := reconciler.VerifNewReconcilerQueue(context.Background(), cfg, vw, r.fc, func(fullsync bool, inner func() time.Duration) time.Duration {
 		return r.consult(b2i(fullsync), inner)
 	})
-	defer v.ShutDown()
+	defer r.release(v.ShutDown)
 	r.l = &limiter{rl: v.Limiter(), delta: r.delta, wait: in.WaitNs}
 	r.lenFn = v.Len
 
